@@ -700,7 +700,19 @@ class Body:
                     x = mm.group(1)
                     rep = 'for %s__r in %s { let %s = *%s__r; %s.push(%s); }' % (x, iter_txt, x, x, vec_name, body_txt)
                 elif re.fullmatch(r'[A-Za-z_][A-Za-z0-9_]*', pat):
-                    rep = 'for %s in %s { %s.push(%s); }' % (pat, iter_txt, vec_name, body_txt)
+                    filt = self._split_copied_filters(iter_txt)
+                    if filt is not None:
+                        # R8 (filtered form): X.iter().copied().filter(|a| C1).filter(|b| C2).map(|q| E)
+                        #   -> for q__r in X.iter() { let q = *q__r; if { let a = &q; C1 } { if { let b = &q; C2 } { V.push(E); } } }
+                        # (copied dereferences each item, filter hands the closure a reference to the item and keeps it when the
+                        #  closure says true, in order - their definition)
+                        recv, conds = filt
+                        inner = '%s.push(%s);' % (vec_name, body_txt)
+                        for fp, fc in reversed(conds):
+                            inner = 'if { let %s = &%s; %s } { %s }' % (fp, pat, fc, inner)
+                        rep = 'for %s__r in %s.iter() { let %s = *%s__r; %s }' % (pat, recv, pat, pat, inner)
+                    else:
+                        rep = 'for %s in %s { %s.push(%s); }' % (pat, iter_txt, vec_name, body_txt)
                 else:
                     raise ExtractError('R8: unsupported closure pattern `%s` at line %d' % (pat, self.line(t[2])))
                 hit = (T(ci - 2)[2], T(close + 1)[3], rep, t)
@@ -709,6 +721,122 @@ class Body:
                 return
             a, b, rep, t = hit
             self.rewrites.append(dict(rule='R8 extend-map', line=self.line(t[2]), what='V.extend(I.map(|p| E)) -> for p in I { V.push(E) }'))
+            self.text = self.text[:a] + rep + self.text[b:]
+            self.toks = lex(self.text)
+
+    @staticmethod
+    def _split_copied_filters(iter_txt):
+        """`X.iter().copied().filter(|a| C1)...` -> (X, [(a, C1), ...]) ; None when the text has another shape."""
+        toks = [t for t in lex(iter_txt) if t[0] not in ('ws', 'lcomment', 'bcomment')]
+        conds = []
+        def close_of(i):
+            depth = 0
+            for k in range(i, len(toks)):
+                if toks[k][0] == 'punct' and toks[k][1] in OPEN:
+                    depth += 1
+                elif toks[k][0] == 'punct' and toks[k][1] in CLOSE:
+                    depth -= 1
+                    if depth == 0:
+                        return k
+            return None
+        # walk from the left: find `.iter().copied()` at depth 0, everything after must be .filter(|p| C) groups
+        depth = 0
+        pos = None
+        for k in range(len(toks) - 6):
+            t = toks[k]
+            if t[0] == 'punct' and t[1] in OPEN:
+                depth += 1
+            elif t[0] == 'punct' and t[1] in CLOSE:
+                depth -= 1
+            elif depth == 0 and t[1] == '.' and [x[1] for x in toks[k:k + 8]] == ['.', 'iter', '(', ')', '.', 'copied', '(', ')']:
+                pos = k
+                break
+        if pos is None or pos == 0:
+            return None
+        recv = iter_txt[toks[0][2]:toks[pos - 1][3]]
+        k = pos + 8
+        while k < len(toks):
+            if not (toks[k][1] == '.' and k + 3 < len(toks) and toks[k + 1][1] == 'filter' and toks[k + 2][1] == '(' and toks[k + 3][1] == '|'):
+                return None
+            c = close_of(k + 2)
+            if c is None or toks[k + 4][0] != 'ident' or toks[k + 5][1] != '|':
+                return None
+            body = iter_txt[toks[k + 6][2]:toks[c - 1][3]]
+            if any(x[1] in ('return', 'break', 'continue', '?') for x in toks[k + 6:c]):
+                return None
+            conds.append((toks[k + 4][1], body))
+            k = c + 1
+        if not conds:
+            return None
+        return recv, conds
+
+    # R11: inside a for-loop body,  `if C { continue; } REST`  ->  `if !(C) { REST }`   (REST = the remaining statements of
+    #      the loop body; structured-control-flow equivalence - Verus' for-loops do not support `continue`)
+    def r11_continue_guard(self):
+        guard = 0
+        while True:
+            guard += 1
+            if guard > 50:
+                raise ExtractError('R11: rewrite did not terminate')
+            code = self.code()
+            T = lambda ci: self.toks[code[ci]]
+            n = len(code)
+            hit = None
+            for ci in range(n - 4):
+                if not (T(ci)[1] == '{' and T(ci + 1)[1] == 'continue' and T(ci + 2)[1] == ';' and T(ci + 3)[1] == '}'):
+                    continue
+                if ci + 4 < n and T(ci + 4)[1] == 'else':
+                    continue
+                # the `if` that owns this block: walk back to the statement start
+                k = ci - 1
+                depth = 0
+                if_ci = None
+                while k >= 0:
+                    x = T(k)
+                    if x[0] == 'punct' and x[1] in CLOSE:
+                        depth += 1
+                    elif x[0] == 'punct' and x[1] in OPEN:
+                        if depth == 0:
+                            break
+                        depth -= 1
+                    elif depth == 0 and x[1] == ';':
+                        break
+                    elif depth == 0 and x[1] == 'if' and (k == 0 or T(k - 1)[1] in ('{', '}', ';')):
+                        if_ci = k
+                    k -= 1
+                if if_ci is None or k < 0 or T(k)[1] != '{':
+                    continue
+                body_open = k
+                # the enclosing block must be the body of a `for`
+                j = body_open - 1
+                depth = 0
+                is_for = False
+                while j >= 0:
+                    x = T(j)
+                    if x[0] == 'punct' and x[1] in CLOSE:
+                        depth += 1
+                    elif x[0] == 'punct' and x[1] in OPEN:
+                        if depth == 0:
+                            break
+                        depth -= 1
+                    elif depth == 0 and x[1] == ';':
+                        break
+                    elif depth == 0 and x[1] == 'for':
+                        is_for = True
+                    j -= 1
+                if not is_for:
+                    continue
+                body_close = self._close(code, body_open)
+                cond_txt = self.text[T(if_ci + 1)[2]:T(ci - 1)[3]]
+                rest_txt = self.text[T(ci + 3)[3]:T(body_close)[2]]
+                if not rest_txt.strip():
+                    continue
+                hit = (T(if_ci)[2], T(body_close)[2], 'if !(%s) {%s}\n' % (cond_txt, rest_txt), T(ci + 1))
+                break
+            if not hit:
+                return
+            a, b, rep, t = hit
+            self.rewrites.append(dict(rule='R11 continue-guard', line=self.line(t[2]), what='if C { continue; } REST -> if !(C) { REST }'))
             self.text = self.text[:a] + rep + self.text[b:]
             self.toks = lex(self.text)
 
@@ -1112,6 +1240,14 @@ def rewrite_type_def(src, item, kw, keep_derives=KEEP_DERIVES):
             dropped = [x for x in names if x not in keep]
             if dropped:
                 rewrites.append(dict(rule='R5 derives', line=src.line_of(src.tok(item['start'])[2]), what='dropped derive(' + ', '.join(dropped) + ')'))
+            if 'Structural' in keep_derives:
+                # `Structural` is Verus' marker that `==` / `!=` of the type is structural equality.  It is added ONLY when the
+                # source derives PartialEq and Eq (a derived PartialEq IS structural equality; a hand-written impl would not qualify).
+                if 'PartialEq' in [x.split('::')[-1] for x in names] and 'Eq' in [x.split('::')[-1] for x in names]:
+                    keep = keep + ['Structural']
+                    rewrites.append(dict(rule='R5 derives', line=src.line_of(src.tok(item['start'])[2]), what='added Verus marker Structural (the source derives PartialEq, Eq)'))
+                else:
+                    raise ExtractError('derive(PartialEq, Eq) is gone from the definition: the Structural marker would be an unfounded assumption')
             if keep:
                 attrs_out.append('#[derive(%s)]' % ', '.join(keep))
         else:
